@@ -239,7 +239,7 @@ def run(ctx):
     ctx.hyp("c03", S.mapped(900, gen), check, ctx.scale(4000, 320000),
             shrinker=shrink)
     ctx.hyp("c03-huge", S.mapped(12, gen_huge), check,
-            ctx.scale(60, 640), shrinker=shrink)
+            ctx.scale(24, 640), shrinker=shrink)
 
     from vp.props import c02
 
